@@ -120,7 +120,12 @@ def do_write(X, sparse: bool, ev: dict, k: int):
                 val = blk.to_sptensor()
             else:
                 val = blk if k % 2 else blk.data.copy()
+        import c05
+        snap = c05.snapshot(val) if not isinstance(val, (int, float)) else None
         X[key] = val
+        if snap is not None and c05.snapshot(val) != snap:
+            # the right-hand side is an operand: it is the same object afterwards (it may be assigned again)
+            return "right-hand-side-changed-by-the-assignment"
         return "ok"
     if op == "set_subs":
         subs = np.array(a["subs"], dtype=int)
@@ -130,7 +135,11 @@ def do_write(X, sparse: bool, ev: dict, k: int):
             val = np.array(a["vals"], dtype=float)[:, None]
         else:
             val = np.array(a["vals"], dtype=float)
+        subs0 = subs.copy()
+        val0 = None if isinstance(val, float) else val.copy()
         X[subs] = val
+        if not np.array_equal(subs, subs0) or (val0 is not None and not np.array_equal(val, val0)):
+            return "right-hand-side-changed-by-the-assignment"
         return "ok"
     if op == "set_linear":
         if sparse and X.ndims != 1:
